@@ -48,7 +48,8 @@ def Role.ok : Role → Ord → Ord → Bool
 
 /-- (enclosing function, object, operation, occurrence) ↦ role, with the reason -/
 def table : List (String × String × String × Nat × Role × String) := [
-  ("BaseCore::Empty", "_callback", "load", 0, .obsLoad, "Ready()/Get() const&: a non-empty word lets the caller read the Result (MP reader)"),
+  ("BaseCore::Empty", "_callback", "load", 0, .obsLoad, "Get() const& / assertions: a non-empty word lets the caller read the Result (MP reader)"),
+  ("BaseCore::Ready", "_callback", "load", 0, .obsLoad, "Ready()/await_ready (since the D3 fix): word = kResult lets the caller read the Result (MP reader)"),
   ("BaseCore::StoreCallbackImpl", "_callback", "store", 0, .unpublished, "the core is not shared yet (lazy chain under construction / Detach callback before SetInline)"),
   ("ResetImpl", "_callback", "load", 0, .precheck, "pre-check of the CAS below"),
   ("ResetImpl", "_callback", "compare_exchange_strong", 0, .ownWrite, "takes back the waiter's own callback; the producers that already took it are awaited through the event"),
